@@ -234,7 +234,7 @@ pub const BREAK_PSEUDO_HEADER: &str = ":break-after";
 
 /// Request headers that have nothing to do with the protocol and must not change any outcome
 /// (nor cost a response its Cache-Control): what browsers, proxies and HTTP libraries add.
-pub const N_EXTRA_HEADER_SETS: u8 = 16;
+pub const N_EXTRA_HEADER_SETS: u8 = 22;
 pub fn extra_header_set(k: u8) -> Vec<(String, Vec<u8>)> {
     let h = |n: &str, v: &str| (n.to_string(), v.as_bytes().to_vec());
     match k % N_EXTRA_HEADER_SETS {
@@ -252,6 +252,12 @@ pub fn extra_header_set(k: u8) -> Vec<(String, Vec<u8>)> {
         12 => vec![h("Cache-Control", "only-if-cached, max-stale=3600"), h("Pragma", "no-cache")],
         13 => vec![h("Accept-Language", "de-CH, en;q=0.5"), h("Accept-Charset", "utf-16;q=1, *;q=0"), h("User-Agent", "")],
         14 => vec![h("Content-Encoding", "identity"), h("Content-Language", "en")],
+        16 => vec![h("X-Forwarded-For", "unknown"), h("Forwarded", "for=unknown")],
+        17 => vec![h("X-Forwarded-For", "203.0.113.7:4711"), h("Forwarded", "for=\"203.0.113.7:4711\"")],
+        18 => vec![h("X-Forwarded-For", "[2001:db8::17]:4711, 10.0.0.1"), h("Forwarded", "for=\"[2001:db8::17]:4711\";by=_proxy")],
+        19 => vec![h("X-Forwarded-For", "_hidden"), h("Forwarded", "for=_hidden, for=_SEVKISEK"), h("X-Real-IP", "not-an-address")],
+        20 => vec![h("X-Forwarded-For", ""), h("Forwarded", ""), h("X-Forwarded-Host", "evil.example:0"), h("X-Forwarded-Port", "99999")],
+        21 => vec![h("Host", "other.example"), h("X-Request-Id", "0"), h("Traceparent", "00-zz-zz-00")],
         15 => vec![h("X-Client-Id-Extra", "1"), h("X-Version-Id", "00000000-0000-0000-0000-000000000001"), h("X-Parent-Version-Id", "00000000-0000-0000-0000-000000000002"), h("X-Snapshot-Request", "urgency=high")],
         _ => vec![],
     }
